@@ -356,5 +356,65 @@ mut("14-parser-rejects-comments-again", "C14", "comment-kinds", ("internal/cmd/t
 				}
 ''', '''				return nil, fmt.Errorf("unknown comment type: %s", ctype)
 '''))
+
+# --- rules added after the second round of seeded changes ----------------------------------------------
+I = "internal/aes_ige/"
+mut("03-keyschedule-window", "C03", "key-schedule:", (I + "ige_cipher.go", "t_b = append(t_b, auth_key[48+x:48+x+16]...)", "t_b = append(t_b, auth_key[40+x:40+x+16]...)"))
+mut("03-keyschedule-sha-order", "C03", "key-schedule:", (I + "ige_cipher.go", "	t_c = append(t_c, auth_key[64+x:64+x+32]...)\n	t_c = append(t_c, msg_key...)", "	t_c = append(t_c, msg_key...)\n	t_c = append(t_c, auth_key[64+x:64+x+32]...)"))
+mut("03-keyschedule-iv-slice", "C03", "key-schedule:", (I + "ige_cipher.go", "aes_iv = append(aes_iv, sha1_c[16:16+4]...)", "aes_iv = append(aes_iv, sha1_c[12:12+4]...)"))
+mut("03-keyschedule-direction-offset", "C03", "key-schedule:server-to-client", (I + "ige_cipher.go", "func generateAESIGE(msg_key, auth_key []byte, decode bool) ([]byte, []byte) {\n	var x int\n	if decode {\n		x = 8", "func generateAESIGE(msg_key, auth_key []byte, decode bool) ([]byte, []byte) {\n	var x int\n	if decode {\n		x = 16"))
+mut("05-tempkeys-swapped-nonces", "C05", "temp-keys:tmp_aes_iv", (I + "aes.go", "	copy(t3[0:], nonceSecondBytes)\n	copy(t3[32:], nonceSecondBytes)", "	copy(t3[0:], nonceSecondBytes)\n	copy(t3[32:], nonceServerBytes)"))
+mut("06-nonce-hash-wrong-aux", "C06", "formula:new_nonce_hash1", (H, "copy(t4[33:], dry.Sha1Byte(m.GetAuthKey())[0:8])", "copy(t4[33:], dry.Sha1Byte(m.GetAuthKey())[12:20])"))
+mut("06-nonce-hash-marker-byte", "C07", "formula:new_nonce_hash1", (H, "	t4[32] = 1\n", "	t4[32] = 2\n"))
+mut("06-salt-from-wrong-half", "C06", "formula:server_salt", (H, "	copy(salt, newNonceBytes[:8])", "	copy(salt, newNonceBytes[8:16])"))
+mut("06-rsa-payload-hash-after", "C06", "formula:rsa_payload", (H, "copy(hashAndMsg, append(dry.Sha1(string(message)), message...))", "copy(hashAndMsg, append(message, dry.Sha1(string(message))...))"))
+mut("06-gb-other-exponent", "C06", "formula:dh-powers", ("internal/math/math.go", "	g_b = big.NewInt(0).Exp(big.NewInt(int64(g)), b, dh_prime)", "	g_b = big.NewInt(0).Exp(big.NewInt(int64(g)), rndmax, dh_prime)"))
+mut("18-srp-k-without-padding-order", "C18", "srp:M1", ("telegram/internal/srp/2fa.go", "	k := bytesToBig(calcSHA256(mp.P, gBytes))", "	k := bytesToBig(calcSHA256(gBytes, mp.P))"))
+mut("18-srp-u-order", "C18", "srp:M1", ("telegram/internal/srp/2fa.go", "	u := bytesToBig(calcSHA256(ga, gb))", "	u := bytesToBig(calcSHA256(gb, ga))"))
+mut("18-srp-exponent-mod-p", "C18", "srp:M1", ("telegram/internal/srp/2fa.go", "	sa := pad256(bigExp(t, u.Mul(u, x).Add(u, a), p).Bytes())", "	e := u.Mul(u, x).Add(u, a)\n	sa := pad256(bigExp(t, e.Mod(e, p), p).Bytes())"))
+mut("18-srp-salting-order", "C18", "srp:M1", ("telegram/internal/srp/2fa.go", "	return calcSHA256(salt, data, salt)", "	return calcSHA256(data, salt, salt)"))
+mut("18-calcsha-skips-first", "C18", "summary:calcSHA256", ("telegram/internal/srp/2fa.go", "	for _, arr := range arrays {\n		h.Write(arr)\n	}", "	for _, arr := range arrays[1:] {\n		h.Write(arr)\n	}"))
+mut("04-refusal-returns-nil-nil", "C04", "refusal:DeserializeEncrypted", ("internal/mtproto/messages/messages.go", '		return nil, errors.New("wrong message key, can\'t trust to sender")', '		return nil, errors.Wrap(err, "wrong message key, can\'t trust to sender")'))
+mut("12-store-skips-write", "C12", "success-means-written", ("internal/session/file.go", "	file := new(tokenStorageFormat)\n	file.writeSession(s)", "	if l.cached == s {\n		return nil\n	}\n	file := new(tokenStorageFormat)\n	file.writeSession(s)"))
+mut("09-nonblocking-delivery", "C09", "deliver:not-skippable", ("network.go", "	v <- data\n", "	select {\n	case v <- data:\n	default:\n	}\n"))
+# negative controls: behaviour-preserving refactors
+mut("07N-guards-in-helpers", "C07", None, (H,
+ """	if nonceFirst.Cmp(dhg.Nonce.Int) != 0 {
+		return fmt.Errorf("handshake: Wrong nonce: %v, %v", nonceFirst, dhg.Nonce)
+	}
+	if nonceServer.Cmp(dhg.ServerNonce.Int) != 0 {
+		return fmt.Errorf("handshake: Wrong server_nonce: %v, %v", nonceServer, dhg.ServerNonce)
+	}
+""", """	if err := seedCheckNonce(nonceFirst, dhg.Nonce); err != nil {
+		return err
+	}
+	if !seedSame(nonceServer, dhg.ServerNonce) {
+		return fmt.Errorf("handshake: Wrong server_nonce: %v, %v", nonceServer, dhg.ServerNonce)
+	}
+"""), (H, "// https://tlgrm.ru/docs/mtproto/auth_key\n", """func seedCheckNonce(a, b *tl.Int128) error {
+	if a.Cmp(b.Int) != 0 {
+		return errors.New("handshake: Wrong nonce")
+	}
+	return nil
+}
+
+func seedSame(a, b *tl.Int128) bool { return a.Cmp(b.Int) == 0 }
+
+// https://tlgrm.ru/docs/mtproto/auth_key
+"""))
+mut("06N-fingerprint-no-break", "C06", None, (H, "			found = true\n			break\n", "			found = true\n"))
+mut("06N-nonce-hash-by-append", "C06", None, (H,
+ """	t4 := make([]byte, 32+1+8) // nolint:gomnd ALL PROTOCOL IS A MAGIC
+	copy(t4[0:], newNonceBytes)
+	t4[32] = 1
+	copy(t4[33:], dry.Sha1Byte(m.GetAuthKey())[0:8])
+""", """	t4 := make([]byte, 0, 32+1+8)
+	t4 = append(t4, newNonceBytes...)
+	t4 = append(t4, 1)
+	t4 = append(t4, dry.Sha1Byte(m.GetAuthKey())[:8]...)
+"""))
+mut("18N-srp-operand-order", "C18", None, ("telegram/internal/srp/2fa.go", "	kv := k.Mul(k, v).Mod(k, p)", "	kv := k.Mul(v, k).Mod(k, p)"))
+mut("09N-delete-before-send", "C09", None, ("network.go", "	v <- data\n\n	m.responseChannels.Delete(msgID)\n	m.expectedTypes.Delete(msgID)\n", "	m.responseChannels.Delete(msgID)\n	m.expectedTypes.Delete(msgID)\n	v <- data\n"))
+
 json.dump(M, open('/verif/selftest/mutations.json', 'w'), indent=1, ensure_ascii=False)
 print(len(M), "mutations")
